@@ -511,7 +511,7 @@ prop("C17",
          "argument kinds of the grammar: array literal, slice const, range, Vec<String>, [&str; N], &[&str], [String; N], Vec<Cow<str>>, [f64; N], chars (also with a NUL among them: such paths cannot be written on a command line and are decided by the family runs only), a Debug-only type; lengths 0,1,2,3,4,21,30 (the larger ones and several kinds in the thorough zoo only); types x consts in both generic orders",
          "filters keeping strict subsets: every single argument and every all-but-one for the first 6 labels, under 6 sorts for the full list (2 sorts per subset in quick)",
      ],
-     technique="bounded-exhaustive black-box runs of the generated crate: every case alone via --exact, whole families under every sort x argument-subset filter, comparing the label with the value / type / const the body received (invocation log) and display order with invocation order",
+     technique="bounded-exhaustive black-box runs of the generated crate: every case alone via --exact, whole families under every sort x argument-subset filter, comparing the label with the value / type / const the body received (invocation log) and display order with invocation order; plus bounded-exhaustive enumeration of short argument lists (repeats included) on the real BenchArgs / EntryTree code: one label per value, leading back to its position",
      text="Every case with an argument, type or const is run alone (`--test --exact <path>`) and its body must log exactly the argument whose rendering is the label, the type so named and the const so printed; families with runtime arguments are run under 6 sort orders and under filters keeping single arguments and all-but-one, where the k-th displayed row must be the k-th invocation with the labelled value; args expressions are evaluated once per process and shared by generic instantiations.",
      note=Z_NOTE, engine="Z")
 
